@@ -87,7 +87,7 @@ void Ledger::do_free(void* p) {
     live.erase(it); releases++;
     if (quarantine) dead[p] = n; else raw_free(p);
 }
-void Ledger::drain_quarantine() { for (auto& kv : dead) raw_free(kv.first); dead.clear(); }
+void Ledger::drain_quarantine() { if (dead.empty()) return; for (auto& kv : dead) raw_free(kv.first); if (dead.bucket_count() > 2048) std::unordered_map<void*, size_t>().swap(dead); else dead.clear(); }
 Ledger::~Ledger() { drain_quarantine(); }
 static void* L_malloc(UriMemoryManager* m, size_t n) { CbScope cb; Ledger* L = (Ledger*)m->userData; maybe_yield(L); if (L->should_fail()) return nullptr; return L->do_alloc(n, false); }
 static void* L_calloc(UriMemoryManager* m, size_t a, size_t b) {
@@ -120,7 +120,7 @@ Str Ledger::describe_live() const {
     for (auto& kv : live) { if (n++ >= 6) { s += " ..."; break; } s += fmt(" %p(%zu)", kv.first, kv.second); }
     return fmt("%zu block(s) outstanding:%s", live.size(), s.c_str());
 }
-void Ledger::release_all() { for (auto& kv : live) raw_free(kv.first); live.clear(); live_bytes = 0; drain_quarantine(); }
+void Ledger::release_all() { for (auto& kv : live) raw_free(kv.first); if (live.bucket_count() > 2048) std::unordered_map<void*, size_t>().swap(live); else live.clear(); live_bytes = 0; drain_quarantine(); }
 
 // ---------------------------------------------------------------- libc interposer
 LibcWatch& libc_watch() { static LibcWatch w{
